@@ -226,6 +226,7 @@ fn build(dna: &mut Dna, ctx: &mut Ctx) -> Option<Built> {
         _ => {
             // C06 domain: plain chunkings of exactly hdr + S + adler32
             po.gap.clear();
+            po.foreign_after = None;
             if junk_idat_in_front > 0 {
                 // well-formed IDAT chunks (correct CRC) with non-deflate data directly in front of
                 // the real run: the scanner first tries the longer run, must reject it and then
@@ -345,6 +346,7 @@ fn build_zero_chunk_probe(k: u64) -> Option<Built> {
     }
     let mut out = vec![0x89, b'P', b'N', b'G', 0x0d, 0x0a, 0x1a, 0x0a];
     let o = PngOpts {
+        foreign_after: None,
         signature: false,
         ihdr: true,
         // the first chunk holds only the first zlib header byte, so no 78 xx signature is
